@@ -76,6 +76,16 @@ def handle (op : String) (req : Json) : Except String Json := do
     | some c =>
       let choices ← getList getNat c
       pure (jcResp (matrixBincount2dSched choices a.arr b.arr na nb))
+  | "bincount1" =>
+    -- libinfo.bincount2d(a, b, n_a, n_b): 1-D arrays travel as (T, 1) columns
+    let a ← getTArr (← field req "a")
+    let b ← getTArr (← field req "b")
+    let na ← getInt (← field req "n_a")
+    let nb ← getInt (← field req "n_b")
+    if a.arr.F ≠ 1 ∨ b.arr.F ≠ 1 then throw "bincount1 expects columns"
+    match (do let na ← toCInt na; let nb ← toCInt nb; bincount2d a.arr b.arr na nb) with
+    | .error e => pure (errJson (errStr e))
+    | .ok h => pure (okJson (listJson (listJson natJson) h.toLists))
   | "mi" =>
     let na ← getNat (← field req "n_a")
     let nb ← getNat (← field req "n_b")
